@@ -275,19 +275,34 @@ func startBusyLoad(n *Node, cur, next [][]byte, checkTx bool) *busyLoad {
 		})
 	}
 	if len(txs) > 0 && !checkTx {
-		// gRPC simulations: two callers
-		for k := 0; k < 2; k++ {
-			k := k
-			loop(&b.txWG, b.txStop, func(i int) {
-				func() {
-					defer func() { _ = recover() }()
-					if _, _, err := app.Simulate(txs[(i+k*3)%len(txs)]); err == nil {
-						b.simsOK.Add(1)
-					}
-				}()
-				b.sims.Add(1)
-			})
+		// gRPC simulations: two callers. The first walks through this block's transactions in order - simulate one, then
+		// let the mempool connection admit it, which moves the check state's sequence to what the next one carries - so that
+		// every transaction's handler runs once next to the block's; afterwards, and in the second caller, everything is
+		// simulated round-robin (the block message, whose sender's sequence is current, always reaches its handler)
+		sim := func(tx []byte) {
+			func() {
+				defer func() { _ = recover() }()
+				if _, _, err := app.Simulate(tx); err == nil {
+					b.simsOK.Add(1)
+				}
+			}()
+			b.sims.Add(1)
 		}
+		walked := 0
+		loop(&b.txWG, b.txStop, func(i int) {
+			if walked < len(cur) {
+				tx := cur[walked]
+				walked++
+				sim(tx)
+				if walked > 1 { // not the block message: it is never in a mempool
+					_, _ = app.CheckTx(&abci.RequestCheckTx{Tx: tx, Type: abci.CheckTxType_New})
+					b.checks.Add(1)
+				}
+				return
+			}
+			sim(txs[i%len(txs)])
+		})
+		loop(&b.txWG, b.txStop, func(i int) { sim(txs[(i+3)%len(txs)]) })
 	}
 	paths := []string{"/goat.relayer.v1.Query/Relayer", "/goat.goat.v1.Query/EthBlockTip", "/goat.bitcoin.v1.Query/Params", "/goat.bitcoin.v1.Query/BlockTip", "/goat.relayer.v1.Query/Pubkeys", "/goat.locking.v1.Query/Params"}
 	loop(&b.qWG, b.qStop, func(i int) {
